@@ -891,6 +891,68 @@ def unroll_literal_loops(func_node: ast.AST, max_items: int = 8) -> ast.AST:
     return ast.fix_missing_locations(res)
 
 
+def inline_procedures(func_node: ast.FunctionDef, callees: typing.Dict[str, ast.FunctionDef], suffix: str = "__inl") -> ast.FunctionDef:
+    """Statements `helper(a, b)` that call a private module-level procedure (no value returned, no generator, parameters never
+    re-bound) are replaced by the procedure's body, parameters spelled as the argument expressions and the procedure's locals renamed
+    apart - the code the call abbreviates.  Returns a deep copy; anything that does not fit stays a call."""
+    fn = copy.deepcopy(func_node)
+
+    def fits(h: ast.FunctionDef, call: ast.Call) -> bool:
+        a = h.args
+        if a.vararg or a.kwarg or a.kwonlyargs or a.posonlyargs or call.keywords or len(call.args) != len(a.args) or any(isinstance(x, ast.Starred) for x in call.args):
+            return False
+        params = {x.arg for x in a.args}
+        for n in ast.walk(h):
+            if isinstance(n, (ast.Yield, ast.YieldFrom, ast.FunctionDef, ast.AsyncFunctionDef, ast.Lambda, ast.ClassDef, ast.Global, ast.Nonlocal)) and n is not h:
+                return False
+            if isinstance(n, ast.Return) and (n.value is not None or n is not h.body[-1]):
+                return False
+            if isinstance(n, ast.Name) and isinstance(n.ctx, (ast.Store, ast.Del)) and n.id in params:
+                return False
+        return True
+
+    def expand(h: ast.FunctionDef, call: ast.Call) -> typing.List[ast.stmt]:
+        env = {p_.arg: a_ for p_, a_ in zip(h.args.args, call.args)}
+        local = {n.id for n in ast.walk(h) if isinstance(n, ast.Name) and isinstance(n.ctx, ast.Store)}
+
+        class R(ast.NodeTransformer):
+            def visit_Name(self, node):
+                if node.id in env and isinstance(node.ctx, ast.Load):
+                    return copy.deepcopy(env[node.id])
+                if node.id in local:
+                    return ast.copy_location(ast.Name(id=node.id + suffix, ctx=node.ctx), node)
+                return node
+
+        body = [st for st in copy.deepcopy(h).body if not (isinstance(st, ast.Expr) and isinstance(st.value, ast.Constant)) and not isinstance(st, ast.Return)]
+        out = [R().visit(st) for st in body] or [ast.Pass()]
+        for st in out:
+            for n in ast.walk(st):
+                if hasattr(n, "lineno"):
+                    n.lineno = call.lineno
+                    n.end_lineno = call.lineno
+        return out
+
+    def block(stmts: typing.List[ast.stmt], depth: int) -> typing.List[ast.stmt]:
+        out: typing.List[ast.stmt] = []
+        for st in stmts:
+            for fld in ("body", "orelse", "finalbody"):
+                if isinstance(getattr(st, fld, None), list) and getattr(st, fld) and isinstance(getattr(st, fld)[0], ast.stmt):
+                    setattr(st, fld, block(getattr(st, fld), depth))
+            for hd in getattr(st, "handlers", []) or []:
+                hd.body = block(hd.body, depth)
+            c = st.value if isinstance(st, ast.Expr) else None
+            if isinstance(c, ast.Call) and isinstance(c.func, ast.Name) and c.func.id in callees and c.func.id.startswith("_") and depth < 2 \
+                    and callees[c.func.id] is not func_node and fits(callees[c.func.id], c):
+                out += block(expand(callees[c.func.id], c), depth + 1)
+            else:
+                out.append(st)
+        return out
+
+    fn.body = block(fn.body, 0)
+    ast.fix_missing_locations(fn)
+    return fn
+
+
 def gather_from_helpers(func_node: ast.FunctionDef, methods: typing.Dict[str, ast.FunctionDef], acc: str = "gathered__") -> ast.FunctionDef:
     """A collection builder split into private parts,
 
